@@ -8,11 +8,15 @@ from .tn import to_tn, crc_of, hx
 
 def plan(prop, tier):
     q = tier == 'quick'
-    flavours = ['asan', 'plain'] if q else ['asan', 'plain', 'msan']
+    flavours = ['asan', 'plain'] if q else ['asan', 'plain', 'msan', 'efence']
     n = 16 if q else 64
     per = 3000 if q else 70000
     shards = [('value', SEED * 1000 + i, per) for i in range(n // 2)] + [('safety', SEED * 1000 + i, per) for i in range(n // 2)]
     shards.append(('prefixes', 0, 0))
+    if not q:
+        flavours = flavours + ['fuzz']
+        for i in range(8):
+            shards.append(('fuzz', SEED * 100 + 50 + i, 1500000))
     return flavours, shards
 
 
@@ -38,6 +42,9 @@ def run_shard(shard_prop, bins, workdir, tier):
     prop, (kind, seed, count) = shard_prop
     out = ShardOut()
     rng = random.Random('C13-%s-%s' % (kind, seed))
+    if kind == 'fuzz':
+        from . import fuzzrun
+        return fuzzrun.run_fuzz(prop, bins['fuzz'], workdir, seed, count, rng)
     cases = []
     meta = {}
     if kind == 'value':
@@ -93,6 +100,8 @@ def run_shard(shard_prop, bins, workdir, tier):
                 meta[base] = (text, b''.join(toks), crc_of(to_tn(v)))
                 base += 1
     for fl, binary in bins.items():
+        if fl == 'fuzz':
+            continue
         by_id = {c[0]: (c[1], c[2]) for c in cases}
         wit = case_witness(by_id, fl)
         logs = run_batch(binary, fl, cases, workdir, 'C13-%s-%s' % (kind, seed))
@@ -154,6 +163,9 @@ def finish(prop, tier, results):
         'samples': tot.samples[:8],
         'classes': {k[6:]: v for k, v in sorted(tot.stats.items()) if k.startswith('class:')},
     }
+    for k in ('fuzz_execs', 'fuzz_sessions', 'fuzz_cov_edges_max', 'fuzz_new_corpus_units'):
+        if k in tot.stats:
+            cov[k] = tot.stats[k]
     inc = None
     if tot.evals == 0:
         inc = 'nothing was evaluated'
